@@ -3,7 +3,7 @@
 
 use crate::args::Args;
 use scale::Compact;
-use scale_info::build::{FieldBuilder, Fields, Variants};
+use scale_info::build::{FieldBuilder, Fields, VariantBuilder, Variants};
 use scale_info::form::{MetaForm, PortableForm};
 use scale_info::{
     meta_type, Field, MetaType, Path, Type, TypeDef, TypeDefComposite, TypeDefTuple, TypeDefVariant, TypeParameter, Variant,
@@ -196,6 +196,71 @@ fn build_pfields(named: bool, fs: &[FieldIn]) -> Vec<Field<PortableForm>> {
     }
 }
 
+fn p_vfields<S>(vb: VariantBuilder<PortableForm, S>, v: &VariantIn) -> VariantBuilder<PortableForm, S> {
+    match &v.fields {
+        Some((named, fs)) => {
+            // re-wrap the finished fields through the builder types
+            if *named {
+                let mut fb = Fields::<PortableForm>::named();
+                for x in fs {
+                    let x = x.clone();
+                    fb = fb.field_portable(move |f| {
+                        let f = f.name(x.name.clone().unwrap()).ty(x.ty);
+                        let f = match &x.type_name {
+                            Some(t) => f.type_name(t.clone()),
+                            None => f,
+                        };
+                        #[cfg(feature = "docs")]
+                        let f = match &x.docs {
+                            Some((_, d)) => f.docs_portable(d.clone()),
+                            None => f,
+                        };
+                        f
+                    });
+                }
+                vb.fields(fb)
+            } else {
+                let mut fb = Fields::<PortableForm>::unnamed();
+                for x in fs {
+                    let x = x.clone();
+                    fb = fb.field_portable(move |f| {
+                        let f = f.ty(x.ty);
+                        let f = match &x.type_name {
+                            Some(t) => f.type_name(t.clone()),
+                            None => f,
+                        };
+                        #[cfg(feature = "docs")]
+                        let f = match &x.docs {
+                            Some((_, d)) => f.docs_portable(d.clone()),
+                            None => f,
+                        };
+                        f
+                    });
+                }
+                vb.fields(fb)
+            }
+        }
+        None => vb,
+    }
+}
+
+fn p_vdisc<S>(vb: VariantBuilder<PortableForm, S>, v: &VariantIn) -> VariantBuilder<PortableForm, S> {
+    match v.discriminant {
+        Some(d) => vb.discriminant(d),
+        None => vb,
+    }
+}
+
+fn p_vdocs<S>(vb: VariantBuilder<PortableForm, S>, v: &VariantIn) -> VariantBuilder<PortableForm, S> {
+    #[cfg(feature = "docs")]
+    let vb = match &v.docs {
+        Some((_, d)) => vb.docs_portable(d.clone()),
+        None => vb,
+    };
+    let _ = v;
+    vb
+}
+
 fn portable_case(rng: &mut Rng, rep: &mut Report, case_id: u64) {
     let cfg = Cfg::small(Mode::Arbitrary);
     let segs = strs(rng, rng.clone().below(4));
@@ -242,62 +307,14 @@ fn portable_case(rng: &mut Rng, rep: &mut Report, case_id: u64) {
                 }
                 let v2 = v.clone();
                 vs = vs.variant(v.name.clone(), move |vb| {
-                    let vb = match v2.discriminant {
-                        Some(d) => vb.discriminant(d),
-                        None => vb,
-                    };
-                    let vb = vb.index(v2.index);
-                    let vb = match &v2.fields {
-                        Some((named, fs)) => {
-                            // re-wrap the finished fields through the builder types
-                            if *named {
-                                let mut fb = Fields::<PortableForm>::named();
-                                for x in fs {
-                                    let x = x.clone();
-                                    fb = fb.field_portable(move |f| {
-                                        let f = f.name(x.name.clone().unwrap()).ty(x.ty);
-                                        let f = match &x.type_name {
-                                            Some(t) => f.type_name(t.clone()),
-                                            None => f,
-                                        };
-                                        #[cfg(feature = "docs")]
-                                        let f = match &x.docs {
-                                            Some((_, d)) => f.docs_portable(d.clone()),
-                                            None => f,
-                                        };
-                                        f
-                                    });
-                                }
-                                vb.fields(fb)
-                            } else {
-                                let mut fb = Fields::<PortableForm>::unnamed();
-                                for x in fs {
-                                    let x = x.clone();
-                                    fb = fb.field_portable(move |f| {
-                                        let f = f.ty(x.ty);
-                                        let f = match &x.type_name {
-                                            Some(t) => f.type_name(t.clone()),
-                                            None => f,
-                                        };
-                                        #[cfg(feature = "docs")]
-                                        let f = match &x.docs {
-                                            Some((_, d)) => f.docs_portable(d.clone()),
-                                            None => f,
-                                        };
-                                        f
-                                    });
-                                }
-                                vb.fields(fb)
-                            }
-                        }
-                        None => vb,
-                    };
-                    #[cfg(feature = "docs")]
-                    let vb = match &v2.docs {
-                        Some((_, d)) => vb.docs_portable(d.clone()),
-                        None => vb,
-                    };
-                    vb
+                    // `index` is called before, between or after the other setters (see the meta case)
+                    let i = v2.index;
+                    match (case_id as usize + i as usize) % 4 {
+                        0 => p_vdocs(p_vfields(p_vdisc(vb.index(i), &v2), &v2), &v2),
+                        1 => p_vdocs(p_vfields(p_vdisc(vb, &v2).index(i), &v2), &v2),
+                        2 => p_vdocs(p_vfields(p_vdisc(vb, &v2), &v2).index(i), &v2),
+                        _ => p_vdocs(p_vfields(p_vdisc(vb, &v2), &v2), &v2).index(i),
+                    }
                 });
             }
             b.variant(vs)
@@ -515,6 +532,34 @@ fn build_mfields_unnamed(fs: &[MField]) -> scale_info::build::FieldsBuilder<Meta
     b
 }
 
+fn m_vdisc<S>(vb: VariantBuilder<MetaForm, S>, v: &VariantIn) -> VariantBuilder<MetaForm, S> {
+    match v.discriminant {
+        Some(d) => vb.discriminant(d),
+        None => vb,
+    }
+}
+
+fn m_vfields<S>(vb: VariantBuilder<MetaForm, S>, v: &VariantIn, mf: &[MField]) -> VariantBuilder<MetaForm, S> {
+    match &v.fields {
+        Some((true, _)) => vb.fields(build_mfields_named(mf)),
+        Some((false, _)) => vb.fields(build_mfields_unnamed(mf)),
+        None => vb,
+    }
+}
+
+fn m_vdocs<S>(vb: VariantBuilder<MetaForm, S>, vdocs: Option<(bool, &'static [&'static str])>, index: u8) -> VariantBuilder<MetaForm, S> {
+    // without the docs feature the gated setter is documented to do nothing: next to an `always` setter,
+    // before or after it, the always-docs stay (with the feature on, which of two setters wins is not specified)
+    let gated_too = !DOCS_ON && index % 3 == 0;
+    match vdocs {
+        Some((true, d)) if gated_too && index % 2 == 0 => vb.docs_always(d).docs(&["given through the gated setter"]),
+        Some((true, d)) if gated_too => vb.docs(&["given through the gated setter"]).docs_always(d),
+        Some((true, d)) => vb.docs_always(d),
+        Some((false, d)) => vb.docs(d),
+        None => vb,
+    }
+}
+
 fn meta_case(rng: &mut Rng, rep: &mut Report, case_id: u64) {
     let idents = ["a", "B", "_c", "r#type", "mod1", "Foo"];
     let segs: Vec<&'static str> = (0..rng.range(1, 4)).map(|_| *rng.pick(&idents)).collect();
@@ -585,25 +630,15 @@ fn meta_case(rng: &mut Rng, rep: &mut Report, case_id: u64) {
                 let mf = mf.clone();
                 let vdocs: Option<(bool, &'static [&'static str])> = v.docs.as_ref().map(|(a, d)| (*a, leak_docs(d)));
                 vs = vs.variant(name, move |vb| {
-                    let vb = vb.index(v2.index);
-                    let vb = match v2.discriminant {
-                        Some(d) => vb.discriminant(d),
-                        None => vb,
-                    };
-                    let vb = match &v2.fields {
-                        Some((true, _)) => vb.fields(build_mfields_named(&mf)),
-                        Some((false, _)) => vb.fields(build_mfields_unnamed(&mf)),
-                        None => vb,
-                    };
-                    // without the docs feature the gated setter is documented to do nothing: next to an `always` setter,
-                    // before or after it, the always-docs stay (with the feature on, which of two setters wins is not specified)
-                    let gated_too = !DOCS_ON && v2.index % 3 == 0;
-                    match vdocs {
-                        Some((true, d)) if gated_too && v2.index % 2 == 0 => vb.docs_always(d).docs(&["given through the gated setter"]),
-                        Some((true, d)) if gated_too => vb.docs(&["given through the gated setter"]).docs_always(d),
-                        Some((true, d)) => vb.docs_always(d),
-                        Some((false, d)) => vb.docs(d),
-                        None => vb,
+                    // `index` changes the builder's type state: it is called before, between or after the other setters
+                    // (what was set before it has to survive the state change)
+                    let ipos = (case_id as usize + v2.index as usize) % 4;
+                    let i = v2.index;
+                    match ipos {
+                        0 => m_vdocs(m_vfields(m_vdisc(vb.index(i), &v2), &v2, &mf), vdocs, i),
+                        1 => m_vdocs(m_vfields(m_vdisc(vb, &v2).index(i), &v2, &mf), vdocs, i),
+                        2 => m_vdocs(m_vfields(m_vdisc(vb, &v2), &v2, &mf).index(i), vdocs, i),
+                        _ => m_vdocs(m_vfields(m_vdisc(vb, &v2), &v2, &mf), vdocs, i).index(i),
                     }
                 });
             }
